@@ -174,6 +174,27 @@ fn main() {
         check_ops(t, d, &mut cx, &json!({"t_bits": t.to_string(), "d_bits": d.to_string()}), None, &mut under, &mut over);
         let iv = vh::world::asymmetry_interval_bits(d);
         if (d >> 16).abs() < (1i128 << 62) && iv as i128 != d >> 16 { cx.fail(format!("Duration {} -> TimeInterval {} expected {}", d, iv, d >> 16), &json!({"d_bits": d.to_string()})); }
+        // wire time interval -> Duration on the receive path, over the whole 64 bit range (the lattice's limbs jump from 1 s to 2^24 s):
+        // a one-step Sync from the parent with originTimestamp 0 and a random 62 / 50 / 30 bit correction field, received at time t
+        if k % 8 == 0 && ws.project(&json!({}))["pst"][0] == "S" {
+            let civ = ((splitmix(x ^ 5) as i64) >> [2, 14, 34][(k / 8 % 3) as usize]) as i128;
+            if (civ << 16) <= t {
+                rx_checks += 1;
+                sync_seq = (sync_seq + 1) % 65536;
+                let res = ws.step(&json!({"e": "sync", "p": 1, "src": [2, 1], "seq": sync_seq, "two": false, "rx": format!("={}", t as u128), "c": format!("={}", civ), "w1": "=0"}));
+                let vec = json!({"t_bits": t.to_string(), "correction_field": civ.to_string()});
+                if res.get("panic").is_some() { cx.fail(format!("receiving a Sync with correction field {} panicked: {}", civ, res["panic"]), &vec); }
+                else {
+                    let pr = ws.project(&res);
+                    let m = pr["flt"].as_array().and_then(|a| a.iter().rev().find(|x| x["k"] == "meas")).cloned();
+                    let want = (t - (civ << 16)).to_string();
+                    match m {
+                        Some(m) if m["rs"] == want.as_str() && m["et"] == want.as_str() => {}
+                        other => cx.fail(format!("Sync received at {} with correction field {} x 2^-16 ns: the filter saw {:?}, expected raw offset and event time {}", t, civ, other, want), &vec),
+                    }
+                }
+            }
+        }
     }
     // log intervals
     let mut logs = 0;
